@@ -20,7 +20,8 @@
 #ifndef TBOX_COROUTINE_MUTEX_HPP_20180527
 #define TBOX_COROUTINE_MUTEX_HPP_20180527
 
-#include <queue>
+#include <deque>
+#include <algorithm>
 #include "scheduler.h"
 
 namespace tbox {
@@ -43,19 +44,23 @@ class Mutex {
     //! 请求资源，注意：只能是协程调用
     //! 不建议直接使用，优先使用 Mutex::Locker 替代
     bool lock() {
-        if (!hold_token_.isNull()) {      //! 如果没有资源，则等待
-            if (hold_token_.equal(sch_.getToken())) //! 如果就是自己占用的，就直接返回
-                return true;
+        const RoutineToken self = sch_.getToken();
+        if (hold_token_.equal(self))    //! 如果就是自己占用的，就直接返回
+            return true;
 
-            wait_tokens_.push(sch_.getToken());
-            do {
-                sch_.wait();
-                if (sch_.isCanceled())
-                    return false;
-            } while (!hold_token_.isNull());
+        while (!hold_token_.isNull()) { //! 如果没有资源，则等待
+            wait_tokens_.push_back(self);   //! (re-)register before every wait
+            sch_.wait();
+            //! never leave our token behind (cancel, or resume() by somebody else)
+            wait_tokens_.erase(std::remove(wait_tokens_.begin(), wait_tokens_.end(), self), wait_tokens_.end());
+            if (sch_.isCanceled()) {
+                if (hold_token_.isNull())
+                    wakeOne();          //! pass on the wake-up that was meant for us
+                return false;
+            }
         }
 
-        hold_token_ = sch_.getToken();
+        hold_token_ = self;
         return true;
     }
 
@@ -66,19 +71,22 @@ class Mutex {
             return;
 
         hold_token_.reset();
+        wakeOne();
+    }
 
+  private:
+    void wakeOne() {
         if (!wait_tokens_.empty()) {
             auto t = wait_tokens_.front();
-            wait_tokens_.pop();
+            wait_tokens_.pop_front();
             sch_.resume(t);
         }
     }
 
-  private:
     Scheduler &sch_;
 
     RoutineToken hold_token_;
-    std::queue<RoutineToken> wait_tokens_;
+    std::deque<RoutineToken> wait_tokens_;
 };
 
 }
